@@ -11,7 +11,7 @@ the stated shape; no sampling):
 
 * `polprog_verdict_partial` — **whole program, IPv4 and IPv6, not split**: for every
   `Rules` configuration whose policy rules have allow/deny/pass/next-tier/log actions
-  (profile rules: allow/deny/pass) and API-valid criteria (`ProgOK`), with or without
+  (profile rules: the same; `pass` in a profile denies) and API-valid criteria (`ProgOK`), with or without
   flow-log rule-hit recording, every packet state and every IP-set
   environment, the instructions the builder model emits (the very list that is
   compared slot by slot with the real builder's `asm.Insns`), run by the eBPF
@@ -55,9 +55,10 @@ call, and `Assemble` succeeding for programs beyond the trampoline stride.
   whole-program theorem, so no build hypothesis is left; `assemble_total_all` — the assembler is
   total on closed event lists.
 
-Two places where the full statement is FALSE of the current code are recorded
-with witnesses: `profile_log_panics` and `proto_name_mismatch` (the latter is
-exactly the `ProtoOK` side condition of `ProgOK`).
+The two places where the full statement used to be FALSE of the code (a PROFILE rule with action
+`log` panicked the builder; the protocol names icmpv6/udplite were compiled to protocol 0) are fixed
+in the code; `profile_log_label` and `proto_names_agree` are the positive statements, and profile
+`log` rules are now inside `ProgOK`/`Buildable`.
 -/
 namespace CalicoVerif.C11
 
@@ -234,7 +235,7 @@ example : exCfg.policyMapStride = 0 ∧ (flat (compile exCfg exRules)).length < 
 /-! ### `Builder.Instructions` is total on valid input (IPv4 or IPv6, one unsplit program) -/
 
 /-- **compile_total (IPv4 or IPv6, not split)**: for every configuration whose policy rules have an
-allow/deny/pass/next-tier/log action, whose profile rules have an allow/deny/pass/next-tier action,
+allow/deny/pass/next-tier/log action, whose profile rules have an allow/deny/pass/next-tier/log action,
 and whose rules carry non-zero IP-set ids and at most one destination IP set (`Buildable` — what
 the calculation graph hands to the builder), the builder neither panics nor does `Assemble` fail:
 every jump it emits targets a label defined LATER in the program, at most 32767 instructions
@@ -377,25 +378,43 @@ example : ShortBlocks exCfgSplit false (compile exCfgSplit exRules) {} := by
 example : ChainEnv { c := exCfgSplit } 3 :=
   ⟨rfl, rfl, by decide, by decide, by decide, by decide, by decide, by decide⟩
 
-/-! ### Where the full statement is false of the current code -/
+/-! ### Former findings, fixed in the code (de590aa, c209e06): now positive statements -/
 
-/-- `compile_total` is false without the profile-action hypothesis of `Buildable`: a PROFILE rule with action `log` (valid in the
-Calico API) makes `Builder.Instructions` panic (`writeProfile`'s action-label map
-has no "log" entry ⇒ empty label ⇒ `log.Panic("empty action label")`). -/
-theorem profile_log_panics :
-    instructions {} { profiles := [⟨[{ action := "log" }]⟩] } = none := by decide
+/-- A PROFILE rule with action `log` (valid in the Calico API) used to make `Builder.Instructions`
+panic ("empty action label"); `writeProfile`'s action-label map now sends `log` to the log label, so
+the rule sets the log flag and evaluation continues — exactly what `polprog_verdict_partial` /
+`compile_total_partial` now state for ALL valid profile actions (`ProfsGood`/`Buildable` ask for
+allow/deny/pass/next-tier/log, like for policy rules). -/
+theorem profile_log_label (al : Label) : profileActionLabel al "log" = .log ∧ profileActionLabel al "Log" = .log := by
+  constructor <;> (rw [profileActionLabel_actOf]; rfl)
 
-/-- A tier policy with the same rule compiles. -/
+-- the former counterexample builds (and so does a tier policy with the same rule)
+example : (instructions {} { profiles := [⟨[{ action := "log" }]⟩] }).isSome = true := by decide
 example : (instructions {} { tiers := [{ endAction := .deny, endRuleID := 0, policies := [⟨[{ action := "log" }]⟩] }] }).isSome = true := by
   decide
+-- ... and it is inside the hypotheses of the whole-program theorems
+example : Buildable { profiles := [⟨[{ action := "log" }, { action := "allow" }]⟩] } := by
+  refine ⟨?_, ?_, ?_, ?_, ?_, ?_⟩
+  · intro t ht; simp at ht
+  · intro t ht; simp at ht
+  · intro t ht; simp at ht
+  · intro t ht; simp at ht
+  · intro pol hp r hr
+    simp at hp; subst hp
+    simp at hr
+    rcases hr with rfl | rfl <;> exact ⟨by decide, by decide, by intro id h; simp [Rule.ipSetIDs] at h⟩
+  · intro pol hp; simp at hp
 
-/-- `polprog_verdict` is false for the protocol NAMES `icmpv6` and `udplite`
-(valid in the Calico API, passed through by the calculation graph):
-`protocolToNumber` knows only tcp/udp/icmp/sctp and compiles every other name to
-protocol number 0, so `protocol: ICMPv6` matches IP protocol 0 instead of 58. -/
-theorem proto_name_mismatch :
-    protocolToNumber (.name "icmpv6") = 0 ∧ protoNumberRef (.name "icmpv6") = some 58 ∧
-    protocolToNumber (.name "udplite") = 0 ∧ protoNumberRef (.name "udplite") = some 136 := by
-  decide
+/-- **The builder's protocol-name table agrees with the API** (it used to know tcp/udp/icmp/sctp only
+and compiled `icmpv6` / `udplite` to protocol 0): every protocol the reference semantics knows is
+compiled to its IANA number, so the `ProtoOK` side condition of `ProgOK` holds for every API-valid
+protocol. -/
+theorem proto_names_agree (pr : Proto) (k : Nat) (h : protoNumberRef pr = some k) :
+    protocolToNumber pr = (k : Int) ∧ ProtoOK pr := by
+  obtain ⟨k', hk', h1, h2⟩ := protoOK_of_ref pr k h
+  rw [h] at h1; cases h1
+  exact ⟨h2, protoOK_of_ref pr k h⟩
+
+example : protocolToNumber (.name "ICMPv6") = 58 ∧ protocolToNumber (.name "udplite") = 136 := by decide
 
 end CalicoVerif.C11
